@@ -420,8 +420,20 @@ func xcryptoConstraintPanic(m *material, body []byte) bool {
 		return false
 	}
 	conn := &memConn{in: bytes.NewReader(frame(body))}
-	p, msg := core.Guard(func() { _ = agent.ServeAgent(&fakeAgent{m: m}, conn) })
-	return p && strings.Contains(msg, "agent.parseConstraints")
+	p, _ := core.Guard(func() { _ = agent.ServeAgent(&fakeAgent{m: m}, conn) })
+	// any panic of x/crypto's server while it decodes this add-identity request (the constraint slice above, or
+	// key material that makes the key constructors panic, e.g. an RSA prime equal to 1): ysshra owes an error
+	return p
+}
+
+// rsaAddIdentity: an add-identity request (code 17) carrying an ssh-rsa private key with these numbers.
+func rsaAddIdentity(n, e, d, iqmp, p, q int64) []byte {
+	body := ssh.Marshal(struct {
+		Type                string
+		N, E, D, Iqmp, P, Q *big.Int
+		Comment             string
+	}{"ssh-rsa", big.NewInt(n), big.NewInt(e), big.NewInt(d), big.NewInt(iqmp), big.NewInt(p), big.NewInt(q), "k"})
+	return append([]byte{yubiagent.AgentMessageAddIdentity}, body...)
 }
 
 func (x *runner) probeXCrypto(g *gen) {
@@ -433,6 +445,11 @@ func (x *runner) probeXCrypto(g *gen) {
 			streams = append(streams, append(frame([]byte{yubiagent.AgentMessageListSlots}), frame(b[:len(b)-3])...))
 			break
 		}
+	}
+	// degenerate RSA private keys: a prime equal to 1 makes the key's precomputation divide by zero inside x/crypto's
+	// server (a panic whose value is not a runtime error); other degenerate numbers for comparison
+	for _, v := range [][6]int64{{15, 3, 3, 1, 1, 15}, {15, 3, 3, 1, 15, 1}, {35, 5, 5, 1, 1, 35}, {15, 3, 3, 1, 3, 5}, {15, 3, 3, 1, 0, 15}, {1, 1, 1, 1, 1, 1}, {9, 3, 3, 1, 3, 3}} {
+		streams = append(streams, append(frame([]byte{yubiagent.AgentMessageListSlots}), frame(rsaAddIdentity(v[0], v[1], v[2], v[3], v[4], v[5]))...))
 	}
 	for _, s := range append([][]byte{}, streams...) {
 		streams = append(streams, append(append([]byte{}, s...), frame([]byte{yubiagent.AgentMessageRequestIdentities})...))
